@@ -449,7 +449,7 @@ class Engine(object):
                     return Undef(w, True)
                 # partially initialised: keep defined bytes, undefined ones become fresh unconstrained bytes
                 s.ubnote(st, 'load of partially uninitialised %d-byte value' % n)
-                cells = [s.fresh(st, 8) if c is None else c for c in cells]
+                cells = [(s.fresh(st, 8), 0) if c is None else c for c in cells]
             if any(c.__class__ is tuple and c[0].__class__ in (Ptr, FnPtr) for c in cells):
                 # part of a stored pointer read as data (e.g. the inactive view of a union): numeric address bits
                 # are not modelled -> indeterminate value
@@ -1420,7 +1420,7 @@ def h_gep(e, st, fr, ins):
             off = off + (x * sz if sz != 1 else x)
     if base.__class__ is not Ptr:
         if base.__class__ is Undef:
-            raise Violation('uninit', "address computed from uninitialised pointer")
+            regs[ins[1]] = base; return      # speculative address arithmetic on an indeterminate pointer: reported only if dereferenced
         if base.__class__ is PInt: base = base.p
         elif base.__class__ is FnPtr:
             if off == 0: regs[ins[1]] = base; return
